@@ -775,12 +775,17 @@ PROPS = {
                         "encoding/json's case-insensitive key matching is not modelled (generator uses exact keys)"],
     },
     "C11": {
-        "lean_module": "Keto.Props.C11",
+        "lean_module": ["Keto.Props.C11", "Keto.Props.C11tc"],
         "theorems": ["Keto.C11_forward_partial", "Keto.C11_build_no_schema", "Keto.C11_forward_partial_storage_only",
-                     "Keto.C11_wellFormedB_sound", "Keto.C11_ttu_subjectset_counterexample"],
+                     "Keto.C11_wellFormedB_sound", "Keto.C11_ttu_subjectset_counterexample",
+                     "Keto.C11_tc_errors_exact", "Keto.C11_tc_namespace", "Keto.C11_tc_subjectset", "Keto.C11_tc_current_relation",
+                     "Keto.C11_tc_traverse_target", "Keto.C11_tc_traverse_undeclared", "Keto.C11_tc_rejects_at", "Keto.C11_tc_accepts_iff",
+                     "Keto.C11_parse_accepts_iff", "Keto.C11_parse_rejects", "Keto.C11_src_permission", "Keto.C11_src_type_union",
+                     "Keto.C11_src_relation_decl", "Keto.C11_checks_cover", "Keto.C11_parse_typeOk", "Keto.C11_accepted_wellFormed",
+                     "Keto.C11_forward_typed", "Keto.C11_forward_parse", "Keto.C11_plainTraversals_needed"],
         "streams": [{"name": "engine-c11", "n": {"quick": 200, "thorough": 2500}, "oracle": oracle_c11, "thorough_seeds": 3}],
         "rule": ENGINE_RULE + "; stores conform to the declared types; judged = configuration accepted by the real OPL type checker, conforming store, query on a declared relation",
-        "partial": "forward direction proved under WellFormed (every name the engine can look up resolves); the OPL type checker does not establish WellFormed for traverse over SubjectSet-typed relations (known finding F-ttu-type)",
+        "partial": "forward direction: for every byte string the parser model accepts, TypeOk holds; TypeOk + PlainTraversals (traversed relations have only plain-namespace types) + conforming store give WellFormed, hence no schema error for any check (C11_forward_parse); without PlainTraversals the statement is false (C11_plainTraversals_needed = known finding F-ttu-type); converse: every failing deferred check yields an error at the offending token, acceptance iff all checks hold (C11_tc_accepts_iff)",
         "assumptions": [],
     },
     "C15": {
